@@ -386,9 +386,16 @@ Definition m_wc_inter_faithful (r c : nsc) : option nsc :=
   | NsAny, NsSet (_ :: _) => Some (NsSet [])
   | _, _ => m_wc_inter r c
   end.
+(** the unrepaired tree (known finding C08-attwild-emptyunion): attWildCardUnion of not(namespace) with a list wildcard
+    that has no namespace list (an empty set) takes the branch "5.3 not expressible" instead of 5.4 *)
+Definition m_wc_union_faithful (r c : nsc) : option nsc :=
+  match r, c with
+  | NsNot u, NsSet [] | NsSet [], NsNot u => if (u =? 1)%N then m_wc_union r c else None
+  | _, _ => m_wc_union r c
+  end.
 Fixpoint m_wexpr_faithful (e : wexpr) : option nsc :=
   match e with
   | WLeaf c => Some c
   | WInter a b => match m_wexpr_faithful a, m_wexpr_faithful b with Some x, Some y => m_wc_inter_faithful x y | _, _ => None end
-  | WUnion a b => match m_wexpr_faithful a, m_wexpr_faithful b with Some x, Some y => m_wc_union x y | _, _ => None end
+  | WUnion a b => match m_wexpr_faithful a, m_wexpr_faithful b with Some x, Some y => m_wc_union_faithful x y | _, _ => None end
   end.
